@@ -8,6 +8,7 @@ import (
 	"io"
 	"log"
 	"os"
+	"verif/harness/fakemc"
 
 	"verif/harness/drv"
 	"verif/harness/stack"
@@ -35,7 +36,9 @@ func main() {
 	length := fs.Int("len", 50, "length (driver specific)")
 	keylen := fs.Int("keylen", 0, "concrete key length (0 = random short)")
 	mode := fs.String("mode", "", "driver specific mode")
+	dribble := fs.Int64("dribble", 0, "seed for the segmentation of the fake backends' reply streams (0 = replies in one piece)")
 	fs.Parse(os.Args[2:])
+	fakemc.DefaultDribble = *dribble
 	var cfg stack.Config
 	if err := json.Unmarshal([]byte(*cfgJSON), &cfg); err != nil {
 		fmt.Fprintln(os.Stderr, "bad -cfg:", err)
@@ -50,7 +53,7 @@ func main() {
 		*dir = d
 	}
 	a := drv.Args{Cfg: cfg, Proto: *proto, Sizes: *sizes, Seed: *seed, Workers: *workers, In: *in, Out: *out,
-		Dir: *dir, N: *n, Len: *length, KeyLen: *keylen, Mode: *mode}
+		Dir: *dir, N: *n, Len: *length, KeyLen: *keylen, Mode: *mode, Dribble: *dribble}
 	d, ok := drv.Drivers[name]
 	if !ok {
 		fmt.Fprintln(os.Stderr, "unknown driver", name)
